@@ -74,6 +74,8 @@ def eval_tree(desc, part: Optional[Part] = None) -> List[dict]:
                                    "witness": {"spec": jsonable(desc), **{k: jsonable(v) for k, v in w.items()}}}
 
     spec = sg.build(desc)
+    # quantised-float leaves: -0.0 and +0.0 are the same value (the property demands an *equal* value); all else bit-exact
+    znorm = (lambda x: sg.norm(x + 0.0 if isinstance(x, float) and x == 0.0 else x)) if desc[0] == "qfloat" else sg.norm
     size = None
     try:
         size = spec.calc_size()
@@ -97,18 +99,18 @@ def eval_tree(desc, part: Optional[Part] = None) -> List[dict]:
                     bad("write-raises", tsite, f"write({_short(v)}) endian={endian} pod={pod} raised {e!r}", **ctxw)
                     continue
                 data = w.copy_buffer()
-                if data != val.enc[ei]:
+                if data != val.enc[ei] and not (val.alt and any(data == a[ei] for a in val.alt)):
                     bad("ref-bytes", tsite, f"write({_short(v)}) endian={endian} pod={pod} gave {data[:48].hex()} (len {len(data)}), "
                                            f"reference encoding {val.enc[ei][:48].hex()} (len {len(val.enc[ei])})", **ctxw)
                 if size is not None and len(data) != size:
                     bad("calc-size-wrong", f"{_cls_name(spec)}.calc_size", f"calc_size()={size} but write({_short(v)}) is {len(data)} bytes", **ctxw)
-                want = sg.norm(v)
+                want = znorm(v)
                 for tr in trailers:
                     n_eval += 1
                     r = se.BufferReader(endian, data + tr, pod=pod)
                     try:
                         got = r.read(spec)
-                        gn = sg.norm(got)
+                        gn = znorm(got)
                     except Exception as e:
                         bad("read-raises", tsite, f"read(write({_short(v)})+{tr.hex() or 'nothing'}) endian={endian} pod={pod} raised {e!r}",
                             trailing=tr, **ctxw)
@@ -262,6 +264,14 @@ def run(run: Run):
     ]
     import time
     run.coverage_extra["wall"] = round(time.time() - run.t0, 1)
+    run.notes += [
+        "observation (outside C08's statement, C10 territory): QuantizedFloat with an *inferred* zero median on a range whose midpoint is within one "
+        "step of 0 but not 0 (e.g. QuantizedFloat(U16|S16, -1.000030518509476, 1.0) without an explicit zero_median): the signed-zero trick does not "
+        "give the raw code back (0x7fff -> -0.0 -> 0x8000 -> +0.0); values stay equal (-0.0 == +0.0), so the check accepts either centre code for such "
+        "a zero and compares quantised-float leaf values with -0.0 == +0.0; no shipped instance has this parameterisation (TE_S16_COORD passes False)",
+        "observation: the pinned QuantizedFloat constructor ignores an explicit zero_median=True (only None triggers the inference; the spec then "
+        "behaves like zero_median=False); self-consistent, hence not a round-trip violation -- that option value is derived wire-first",
+    ]
     run.coverage_extra["depth"] = depth
     run.coverage_extra["trees_enumerated"] = len(_TREES)
     wc = {k[6:]: v for k, v in run.counters.items() if k.startswith("wcpos:")}
